@@ -92,11 +92,6 @@ Proof.
   rewrite Hn in Ht. exact Ht.
 Qed.
 
-(* ... and a rejected one carries at least one error, so Parse never returns (nil, nil) *)
-Theorem c10_rejected_has_error mx fuel input k n m :
-  parse go_grammar mx action_sem pred_sem fuel input = Rejected k n m -> m = true \/ k <> 0%nat.
-Proof. Abort.
-
 Theorem c16_no_double_not mx fuel input v n :
   parse go_grammar mx action_sem pred_sem fuel input = Accepted v n -> exists e, v = VExpr e /\ no_not_not e.
 Proof. intros H. destruct (c10_accepted_is_expression mx fuel input v n H) as [e [-> Hw]]. eauto using wf_no_not_not. Qed.
